@@ -272,7 +272,18 @@ def commit_replay(job):
     IE = Models.InElastic
     viol, n = [], 0
     with quiet():
-        mesh = _grid_mesh(2, 1, ElemType.QUAD4)
+        if idx % 2 == 0:
+            mesh = _grid_mesh(2, 1, ElemType.QUAD4)
+        else:
+            # two element groups of the main dimension: quadrangles on the left, triangles on the right (the internal state is
+            # kept per group: every group must go through the trial / commit cycle)
+            from EasyFEA import Mesher
+            from EasyFEA.FEM import Mesh
+            from EasyFEA.Geoms import Domain, Point
+
+            mq = Mesher().Mesh_2D(Domain(Point(0, 0), Point(0.5, 1), 0.5), [], ElemType.QUAD4, isOrganised=True)
+            mt = Mesher().Mesh_2D(Domain(Point(0.5, 0), Point(1, 1), 0.5), [], ElemType.TRI3, isOrganised=True)
+            mesh = Mesh.Merge([mq, mt])
         law = Models.InElastic.Behavior(2, Models.Elastic.Isotropic(3, E=200.0, v=0.3), yieldSurface=IE.Yield.VonMises(1.0), hardening=IE.IsotropicHardening.Linear(20.0), kinematic=IE.KinematicHardening.Prager(10.0))
         sim = Simulations.InElastic(mesh, law, verbosity=False)
     left = mesh.Nodes_Conditions(lambda x, y, z: x == 0)
@@ -291,6 +302,7 @@ def commit_replay(job):
     def committed():
         return h(getattr(sim, "_InElastic__zOld"))
 
+    solved = False
     tok = {0: committed()}  # token -> hash of the committed state
     trail = []
     snaps = []
@@ -301,6 +313,7 @@ def commit_replay(job):
         try:
             with quiet():
                 if a["name"] == "Solve":
+                    solved = True
                     lvl = a["arg"]
                     sim.Bc_Init()
                     sim.add_dirichlet(left, [0, 0], ["x", "y"])
@@ -312,6 +325,14 @@ def commit_replay(job):
                 elif a["name"] == "SaveIter":
                     sim.Save_Iter()
                     snaps.append((sim.displacement.copy(), committed()))
+                    zc = getattr(sim, "_InElastic__zOld")
+                    if solved and zc:
+                        # every element group of the mesh has gone through the trial / commit cycle: the committed state of a group
+                        # that is missing restarts from the virgin state at every step
+                        lacking = [str(g.elemType) for g in mesh.Get_list_groupElem(mesh.dim) if g.elemType not in zc]
+                        if lacking:
+                            viol.append(("commit/groups", f"after Save_Iter() the committed internal state has no entry for the element group(s) {lacking} of a mesh with {[str(g.elemType) for g in mesh.Get_list_groupElem(mesh.dim)]}, after {' -> '.join(trail)}", {"behaviour": [s_['act'] for s_ in beh[: len(trail)]], "mesh": "QUAD4+TRI3"}))
+                            break
                 elif a["name"] == "SetIter":
                     sim.Set_Iter(a["arg"] - 1)
                 elif a["name"] == "GetResults":
